@@ -342,7 +342,7 @@ class FieldMappingTransformationBase(DetectionItemTransformation):
         if field_match or fieldref_match:  # field name was changed or field reference was mapped
             if self._pipeline is not None and mapping is not None:
                 self._pipeline.field_mappings.add_mapping(field, mapping)
-                if field_match and field is not None and self.processing_item is not None:
+                if field_match and self.processing_item is not None:
                     # track the processing item for the field name like it is done for field
                     # references and the field list
                     self._pipeline.track_field_processing_items(
